@@ -104,12 +104,24 @@ def run_one(rng, counters):
                     if r["kind"] == "noalt":
                         call["GT"] = "0/0"
             opts["unusable_contig"] = which
+        unselected = [s_ for s_ in sim.doc.samples if opts.get("samples") and s_ not in opts["samples"]]
+        if unselected and rng.random() < 0.3:
+            # haploid calls (a male sample on chrX) of a sample that was not selected: they only have to be copied
+            u = sim.doc.samples.index(rng.choice(unselected))
+            which = rng.choice(sim.chroms)
+            for r in sim.doc.records:
+                if r["chrom"] == which and rng.random() < 0.5:
+                    r["calls"][u]["GT"] = rng.choice(["0", "1", "."])
+                    for k_ in ("PS", "HP", "PQ", "PL"):
+                        if k_ in r["calls"][u]:
+                            r["calls"][u][k_] = "."
+            opts["haploid_calls_of_unselected_sample"] = True
         sim.doc.write(sim.vcf, compress=bool(p["vcf_compress"]))
         desc = {"params": p, "options": opts, "vcf": sim.doc.text() if len(sim.doc.records) < 60 else "(%d records)" % len(sim.doc.records)}
         if not vcfdiff.htslib_roundtrips(sim.vcf, os.path.join(tmp, "rt.vcf")):
             counters["skipped_htslib_cannot_copy"] = counters.get("skipped_htslib_cannot_copy", 0) + 1
             return [], False, desc
-        ro = {k: v for k, v in opts.items() if k not in ("ped", "prephase", "unusable_contig")}
+        ro = {k: v for k, v in opts.items() if k not in ("ped", "prephase", "unusable_contig", "haploid_calls_of_unselected_sample")}
         ro["reference"] = sim.fasta
         if opts.get("ped"):
             ro["ped"] = sim.ped
@@ -122,10 +134,14 @@ def run_one(rng, counters):
             counters["refused_" + msg.split(" ")[0][:20]] = counters.get("refused_" + msg.split(" ")[0][:20], 0) + 1
             if "No reads could be retrieved" in msg or "Mixed phasing" in msg or "Mendelian" in msg:
                 return [], False, desc
+            if "ploidy" in msg.lower() and opts.get("haploid_calls_of_unselected_sample"):
+                return [{"mech": "refused:haploid-call-of-unselected-sample", "msg": "the selected samples %r are diploid everywhere, an unselected sample has haploid calls: %s" % (opts["samples"], msg[:300])}], False, desc
             return [{"mech": "refused:" + msg[:40], "msg": msg}], False, desc
         if status != "ok":
             return [pipeline.crash_violation(msg)], False, desc
         counters["runs_ok"] = counters.get("runs_ok", 0) + 1
+        if opts.get("haploid_calls_of_unselected_sample"):
+            counters["runs_with_haploid_calls_of_unselected_sample"] = counters.get("runs_with_haploid_calls_of_unselected_sample", 0) + 1
         targets = opts.get("samples") or [s for s in p["samples"]] + list(p["extra_vcf_samples"])
         if opts.get("ped"):
             targets = list(p["samples"]) + list(p["extra_vcf_samples"])
